@@ -38,7 +38,7 @@ func (e *eraCtx) syncBlock(h uint32) *Trace {
 	}
 	sc := &Scenario{Name: fmt.Sprintf("SyncBlock height=%d", h),
 		Params: map[string]AVal{"height": hconst(h)},
-		Paths:  map[string]AVal{"d.Sync.Synced": hconst(h - 1), "block.Height": hconst(h), "eblock.Height": hconst(h), "dblock.Height": hconst(h)},
+		Paths:  map[string]AVal{"pegnet.BlockSync.Synced": hconst(h - 1), "factom.EBlock.Height": hconst(h), "factom.DBlock.Height": hconst(h)},
 		// SelectPendingRates returns a freshly made (non-nil) map on its nil-error path
 		MaxDepth: 2,
 		NoInline: map[string]bool{"multiFetch": true},
@@ -56,7 +56,7 @@ func (e *eraCtx) syncBlockNoFault(h uint32) *Trace {
 	}
 	sc := &Scenario{Name: fmt.Sprintf("SyncBlock height=%d no-fault", h),
 		Params:       map[string]AVal{"height": hconst(h)},
-		Paths:        map[string]AVal{"d.Sync.Synced": hconst(h - 1)},
+		Paths:        map[string]AVal{"pegnet.BlockSync.Synced": hconst(h - 1)},
 		Calls:        map[string]AVal{"isDone": cBool(false)},
 		MaxDepth:     0,
 		AllErrorsNil: true,
@@ -76,7 +76,7 @@ func (e *eraCtx) grade(h uint32, which string) *Trace {
 	if t, ok := m[h]; ok {
 		return t
 	}
-	sc := &Scenario{Name: fmt.Sprintf("%s height=%d", fn, h), Paths: map[string]AVal{"block.Height": hconst(h)}, MaxDepth: 1}
+	sc := &Scenario{Name: fmt.Sprintf("%s height=%d", fn, h), Paths: map[string]AVal{"factom.EBlock.Height": hconst(h)}, MaxDepth: 1}
 	t := newSCCP(e.c, sc).analyse(e.c.fn(fn), nil)
 	m[h] = t
 	return t
@@ -86,7 +86,7 @@ func (e *eraCtx) dblockSync(h uint32) *Trace {
 	if t, ok := e.db[h]; ok {
 		return t
 	}
-	sc := &Scenario{Name: fmt.Sprintf("DBlockSync next=%d", h), Paths: map[string]AVal{"d.Sync.Synced": hconst(h - 1)}, MaxDepth: 1,
+	sc := &Scenario{Name: fmt.Sprintf("DBlockSync next=%d", h), Paths: map[string]AVal{"pegnet.BlockSync.Synced": hconst(h - 1)}, MaxDepth: 1,
 		NoInline: map[string]bool{"SyncBlock": true, "InsertSynced": true}}
 	t := newSCCP(e.c, sc).analyse(e.c.Sync, nil)
 	e.db[h] = t
